@@ -256,6 +256,20 @@ Theorem C12_src_send_loop : forall tmo fuel late cur total sc w,
 Proof. exact send_loop_src_eq. Qed.
 Print Assumptions C12_src_send_loop.
 
+Theorem C12_src_recv : forall s k, recv_src s k = recv s k.
+Proof. exact recv_src_eq. Qed.
+Print Assumptions C12_src_recv.
+
+Theorem C12_src_peek : forall s k, peek_src s k = peek s k.
+Proof. exact peek_src_eq. Qed.
+Print Assumptions C12_src_peek.
+
+Theorem C12_src_recv_close : forall s m mz,
+  mz_ok (resolve (maxsize s) m) mz (length (rbuf s) + length (flat (nt s))) ->
+  recv_close_src s mz = recv_close s m.
+Proof. exact recv_close_src_eq. Qed.
+Print Assumptions C12_src_recv_close.
+
 (* the hypotheses are met by the code's own values: maxsize=None is 1024**5 (regenerated constant), far above
    any stream the model runs on *)
 Example C12_src_ex :
